@@ -202,12 +202,8 @@ def check(model: Model, tier: str):
     from ..normguard import rule_scale_free
     obs += rule_scale_free(model, "_division.amen_divide")
     fs = [model.func(a) for a in ANCHORS]
-    exc = {("_division.amen_divide", "sig:=binop | =call:datetime.datetime.now"): "verbose timing only", ("_division.amen_divide", "sig:=binop | =call:datetime.datetime.now"): "verbose timing only",
-           ("_division.amen_divide", "sig:=binop | =call:datetime.datetime.now"): "verbose timing only", ("_division.amen_divide", "sig:for:range(_)"): "read only in the verbose report after a zero-sweep run",
-           ("_division.amen_divide", "sig:unpack[1/3]=call:gmres_restart"): "verbose report of the iterative branch only", ("_division.amen_divide", "sig:unpack[2/3]=call:gmres_restart"): "verbose report of the iterative branch only",
-           ("_division.amen_divide", "sig:=call:LinearOp"): "bound in the iterative branch; read under `not use_full` (same condition)",
-           ("_division.amen_divide", "sig:=call:oe.contract | =call:tn.reshape"): "bound in the direct branch; read under `use_full` (same condition)",
-           ("_division.amen_divide", "sig:=call:min | =const | =item | augAdd | for:range(_.shape[1] - 1, 0, -1)"): "unassigned only for trunc_norm='fro', an option outside the property's quantifier (observed: NameError there)"}
-    obs += rules.rule_defassign(model, fs, exc)
+    exc = {}
+    # progress output and the undocumented truncation option 'fro' are outside the property's quantifier: their guards are fixed
+    obs += rules.rule_defassign(model, fs, exc, domain="quantifier")
     obs += rules.rule_unres(model, fs)
     return obs, {"functions": ANCHORS}
